@@ -4,7 +4,7 @@
 EXTENDS QuoteHistory, TLC, Json, IOUtils, SequencesExt
 Rec == ndJsonDeserialize(IOEnv.TRACE)
 N == Len(Rec)
-Peers == {"A", "B"}
+Peers == {"A", "B", "C"}
 VARIABLES l, st, viol, drift
 tvars == <<l, st, viol, drift>>
 H(x) == [ts |-> x.ts, live |-> x.live, rpc |-> x.rpc]
@@ -16,12 +16,31 @@ TNext ==
        IF e.ev = "Reset" THEN st' = HInit(Peers) /\ UNCHANGED <<viol, drift>>
        ELSE IF e.ev = "Quote" /\ e.p \in Peers THEN
             LET k == H(e.before) q == H(e.q) k2 == H(e.after)
-                m == VerifyQuote(st, e.p, q) IN
+                m == HandleEntry(st, e.bad0, e.p, q) IN
             /\ st' = m
             /\ viol' = viol \cup {[clause |-> c, line |-> l] :
                           c \in When(~C13_History_Node(k, q, e.issue), "C13_History_Node")
                                 \cup When(~C13_HistoryKeeps(k, q, k2), "C13_HistoryKeeps")}
             /\ drift' = drift \cup (IF m.kept[e.p] = k2 /\ m.issue[e.p] = e.issue /\ st.kept[e.p] = k THEN {} ELSE {l})
+       \* one QuoteVerification command with several entries: ents[i] = [p, q, bad0]; before / after / issue of an entry
+       \* are those of its peer before / after the WHOLE command
+       ELSE IF e.ev = "Batch" /\ Len(e.entries) > 0 /\ (\A i \in DOMAIN e.entries : e.entries[i].p \in Peers) THEN
+            LET ents == [i \in DOMAIN e.entries |-> [p |-> e.entries[i].p, q |-> H(e.entries[i].q), bad0 |-> e.entries[i].bad0]]
+                ps == {ents[i].p : i \in DOMAIN ents}
+                At(p) == e.entries[CHOOSE i \in DOMAIN ents : ents[i].p = p]
+                start == [kept |-> [p \in Peers |-> IF p \in ps THEN H(At(p).before) ELSE NoQuote], issue |-> [p \in Peers |-> FALSE]]
+                j == BatchJudgement(start, ents)
+                issueAfter == [p \in Peers |-> IF p \in ps THEN At(p).issue ELSE FALSE]
+                m == HandleBatch(st, ents) IN
+            /\ st' = m
+            /\ viol' = viol \cup {[clause |-> c, line |-> l] :
+                          c \in When(~C13_History_Batch(j, issueAfter), "C13_History_Node")
+                                \cup When(\E p \in ps : ~C13_HistoryKeeps_Batch(j, p, H(At(p).before), H(At(p).after),
+                                                                                  {ents[i].q : i \in {x \in DOMAIN ents : ents[x].p = p}}), "C13_HistoryKeeps")}
+            /\ drift' = drift \cup (IF \A p \in ps : m.kept[p] = H(At(p).after) /\ m.issue[p] = At(p).issue /\ st.kept[p] = H(At(p).before) THEN {} ELSE {l})
+       \* the node was made to consider the peer bad (three issues reported through the real handler)
+       ELSE IF e.ev = "MarkBad" /\ e.p \in Peers THEN
+            st' = [st EXCEPT !.issue[e.p] = (e.issues > 0)] /\ UNCHANGED <<viol, drift>>
        \* a quote created and signed by the node itself (ant-node create_quote_for_storecost)
        ELSE IF e.ev = "NodeQuote" THEN
             /\ st' = st
